@@ -22,6 +22,7 @@ const driverTemplate = `package %s
 import (
 	"encoding/json"
 	"fmt"
+	"math/big"
 	"math/rand"
 	"os"
 	"strconv"
@@ -70,6 +71,14 @@ func TestVerifNative(t *testing.T) {
 				case "bool":
 					return strconv.Itoa(rng.Intn(2))
 				case "nat":
+					if rt.HintHi != nil {
+						span := new(big.Int).Sub(rt.HintHi, rt.HintLo)
+						v := new(big.Int).Rand(rng, span)
+						if rng.Intn(4) == 0 {
+							v.SetInt64(0)
+						}
+						return v.Add(v, rt.HintLo).String()
+					}
 					switch rng.Intn(4) {
 					case 0:
 						return "0"
